@@ -159,7 +159,11 @@ pub fn check(mut ctx: Ctx, replay: Option<J>) -> ! {
     let obs: Vec<String> = r["obs"].as_array().unwrap().iter().map(|o| crate::codec::dec_value(o).to_string()).collect();
     let syms: Vec<String> = parts_of(&r["parts"]).into_iter().filter(|p| SYMS.contains(&p.as_str())).collect();
     let dots = syms.iter().filter(|x| *x == ".").count();
-    let sig = if dots >= 2 && [1u64, 2, 3, 6, 7, 8].contains(&r["tpl"].as_u64().unwrap_or(0)) {
+    let local = parts_of(&r["local"]);
+    let bound_first_word = !local.is_empty() && r["names"].as_array().map_or(false, |a| a.iter().any(|n| n["n"] == local[0].as_str()));
+    let sig = if bound_first_word && local.len() > 1 && [10u64, 12].contains(&r["tpl"].as_u64().unwrap_or(0)) {
+      format!("declared-name-beginning-with-a-bound-word:{}", if r["tpl"] == 10 { "context-entry-key" } else { "function-parameter" })
+    } else if dots >= 2 && [1u64, 2, 3, 6, 7, 8].contains(&r["tpl"].as_u64().unwrap_or(0)) {
       "path-of-three-or-more-segments-directly-after-an-opening-bracket".to_string()
     } else {
       format!("tpl{}:symbols[{}]:parts{}", r["tpl"], syms.join(""), r["parts"].as_array().map(|a| a.len()).unwrap_or(0))
